@@ -17,7 +17,7 @@ RULE = ('full product: roots of x^2-d, x^3-d, exp(x)-d, log(x)-d, tanh(x)-d, x^3
         'pure covariance input}, d with central value exactly 0 (covariance input, symmetric samples, first component of a vector); integrals of p0+p1 x+p2 x^2, exp(p0 x), sin(p0 x), cos(p0 x)+p1, p0/(1+x^2) x every subset of '
         '{every parameter, a, b} being observables (2^k subsets) x assignment of layouts to the observable slots {all equal, different '
         'configuration subsets, different ensembles, covariance inputs} x orientation a<b and a>b; no observable => scipy\'s '
-        'tuple.  Non-trivial = at least one observable and not (single chain, equal layouts)')
+        'tuple; call history: three functions sharing one code object (factory closures, lambda in a loop) for find_root (scalar and vector d) and quad, called in every order x 3 layouts; the trigonometric integrals again through quad(weight=cos|sin, wvar) with observable parameters.  Non-trivial = at least one observable and not (single chain, equal layouts)')
 ASSUMPTIONS = ['closed-form inverses / antiderivatives and their partial derivatives are written out in this file',
                'comparison of a flat reference propagation with the implementation to 1e-8 (root finder / quadrature tolerance)']
 EXHAUSTIVE = True
@@ -58,6 +58,13 @@ def build(tier, seed):
             cases.append({'kind': 'root', 'fam': fam, 'lay': lay})
     cases.append({'kind': 'root-vector'})
     cases.append({'kind': 'root-zero'})
+    # call history: functions that share their code object (closures from one factory, a lambda in a loop) called one after
+    # the other in every order -- a result must depend on the function passed, not on what was passed before
+    for order in itertools.permutations(range(3)):
+        cases.append({'kind': 'root-factory', 'order': list(order)})
+        cases.append({'kind': 'quad-factory', 'order': list(order)})
+    for w in ('cos', 'sin'):
+        cases.append({'kind': 'quad-weight', 'weight': w})
     for integ in INTEGRANDS:
         cases.append({'kind': 'quad', 'integrand': integ})
     return cases
@@ -74,6 +81,12 @@ def run_case(case):
             run_root_vector(pe, acc, case)
         elif case['kind'] == 'root-zero':
             run_root_zero(pe, acc, case)
+        elif case['kind'] == 'root-factory':
+            run_root_factory(pe, acc, case)
+        elif case['kind'] == 'quad-factory':
+            run_quad_factory(pe, acc, case)
+        elif case['kind'] == 'quad-weight':
+            run_quad_weight(pe, acc, case)
         else:
             run_quad(pe, acc, case)
     return acc
@@ -151,6 +164,129 @@ def run_root_zero(pe, acc, case):
     else:
         acc.ok('rootz-vector', True, 'root-zero')
     acc.sample({'kind': 'root-zero', 'd': list(ds), 'families': list(fams)})
+
+
+def run_root_factory(pe, acc, case):
+    a = anp()
+
+    def make(pw, k):
+        return lambda x, d: k * x ** pw - d
+
+    def make_vec(k):
+        return lambda x, d: a.exp(k * x) * d[0] - d[1]
+    params = [(2, 1.0), (3, 0.5), (1.5, 2.0)]
+    fs = [make(pw, k) for pw, k in params]
+    vks = [0.5, 1.0, 2.0]
+    vfs = [make_vec(k) for k in vks]
+    loop = [lambda x, d, q=q: x ** 3 + q * x - d for q in (1.0, 2.0, 4.0)]
+    if not (fs[0].__code__ is fs[1].__code__ and vfs[0].__code__ is vfs[2].__code__ and loop[0].__code__ is loop[1].__code__):
+        raise engine.MachineryError('factory functions do not share their code object')
+    for lay in ('single', 'tworep', 'purecov'):
+        d = D_LAYOUTS[lay](pe, ('c09f', lay), 1.9)
+        d0 = D_LAYOUTS['single'](pe, ('c09f0', lay), 1.3)
+        rd, rd0 = compare.to_ref(d), compare.to_ref(d0)
+        for i in case['order']:
+            pw, k = params[i]
+            xv = (rd['value'] / k) ** (1 / pw)
+            exp = ref.r_propagate(xv, [1 / (k * pw * xv ** (pw - 1))], [rd])
+            kv = vks[i]
+            xv2 = math.log(rd['value'] / rd0['value']) / kv
+            exp2 = ref.r_propagate(xv2, [-1 / (kv * rd0['value']), 1 / (kv * rd['value'])], [rd0, rd])
+            q = (1.0, 2.0, 4.0)[i]
+            xv3 = _newton(lambda x: x ** 3 + q * x - rd['value'], lambda x: 3 * x * x + q, 1.0)
+            exp3 = ref.r_propagate(xv3, [1 / (3 * xv3 * xv3 + q)], [rd])
+            for nm, call, e in (('scalar', lambda: pe.roots.find_root(d, fs[i], guess=1.0), exp),
+                                ('vector', lambda: pe.roots.find_root([d0, d], vfs[i], guess=0.3), exp2),
+                                ('loop-lambda', lambda: pe.roots.find_root(d, loop[i], guess=1.0), exp3)):
+                sub = dict(case, lay=lay, which=i, form=nm)
+                try:
+                    x = call()
+                    bad = ref.close(e, compare.to_ref(x), 1e-8)
+                except Exception as ex:
+                    bad = 'raised %s: %s' % (type(ex).__name__, ex)
+                if bad:
+                    acc.fail('root-factory:%s' % nm, sub, 'find_root with function #%d of a factory (calls in order %s, %s d on %s): %s' % (i, case['order'], nm, lay, bad))
+                else:
+                    acc.ok(('rootf', tuple(case['order']), lay, i, nm), True, 'root-factory')
+    acc.sample(dict(case, functions='k*x^p-d for (p,k) in %s; exp(k x) d0 - d1; x^3+q x-d' % params))
+
+
+def run_quad_factory(pe, acc, case):
+    def make(k):
+        return lambda p, x: p[0] * x ** k + p[1]
+    ks = [1, 2, 3]
+    fs = [make(k) for k in ks]
+    if fs[0].__code__ is not fs[2].__code__:
+        raise engine.MachineryError('factory functions do not share their code object')
+    for lay in ('single', 'tworep', 'purecov'):
+        p0 = D_LAYOUTS[lay](pe, ('c09qf', lay), 0.8)
+        b = D_LAYOUTS['single'](pe, ('c09qfb', lay), 1.4)
+        r0, rb = compare.to_ref(p0), compare.to_ref(b)
+        av, p1 = 0.3, 0.25
+        for i in case['order']:
+            k = ks[i]
+            bv = rb['value']
+            val = r0['value'] * (bv ** (k + 1) - av ** (k + 1)) / (k + 1) + p1 * (bv - av)
+            exp = ref.r_propagate(val, [(bv ** (k + 1) - av ** (k + 1)) / (k + 1), r0['value'] * bv ** k + p1], [r0, rb])
+            sub = dict(case, lay=lay, which=i)
+            try:
+                res = pe.integrate.quad(fs[i], [p0, p1], av, b)
+                bad = ref.close(exp, compare.to_ref(res[0]), 1e-8)
+            except Exception as ex:
+                bad = 'raised %s: %s' % (type(ex).__name__, ex)
+            if bad:
+                acc.fail('quad-factory', sub, 'quad with integrand #%d of a factory (calls in order %s, p0 on %s): %s' % (i, case['order'], lay, bad))
+            else:
+                acc.ok(('quadf', tuple(case['order']), lay, i), True, 'quad-factory')
+    acc.sample(dict(case, integrands='p0*x^k+p1 for k in %s' % ks))
+
+
+def run_quad_weight(pe, acc, case):
+    """the same trigonometric integrals through scipy's weight= argument: int (p0 + p1 x) cos|sin(w x) dx, observables among the parameters"""
+    wname = case['weight']
+    for w in (1.5, 3.0):
+        for av, bv in ((0.2, 1.1), (1.3, 0.4)):
+            def anti(x, n):
+                # antiderivative of x^n * weight(w x), n = 0, 1
+                if wname == 'cos':
+                    return math.sin(w * x) / w if n == 0 else x * math.sin(w * x) / w + math.cos(w * x) / w ** 2
+                return -math.cos(w * x) / w if n == 0 else -x * math.cos(w * x) / w + math.sin(w * x) / w ** 2
+            wf = (lambda x: math.cos(w * x)) if wname == 'cos' else (lambda x: math.sin(w * x))
+            for k, obs_slots in enumerate([(0,), (1,), (0, 1), ('b',), (0, 'a'), (1, 'a', 'b')]):
+                for assign in ('equal', 'ensembles', 'cov'):
+                    p = [0.7, -0.4]
+                    lim = {'a': av, 'b': bv}
+                    made = {}
+                    for si, sl in enumerate(obs_slots):
+                        o = slot_obs(pe, SLOT_ASSIGN[assign](si), ('w', wname, w, av, obs_slots, assign, sl), lim[sl] if sl in lim else p[sl])
+                        made[sl] = o
+                        if sl in lim:
+                            lim[sl] = o
+                        else:
+                            p[sl] = o
+                    pv = [x.value if isinstance(x, pe.Obs) else x for x in p]
+                    a_, b_ = [x.value if isinstance(x, pe.Obs) else x for x in (lim['a'], lim['b'])]
+                    ins, grads = [], []
+                    for sl, o in made.items():
+                        ins.append(compare.to_ref(o))
+                        if sl in lim:
+                            x0 = a_ if sl == 'a' else b_
+                            grads.append((-1 if sl == 'a' else 1) * (pv[0] + pv[1] * x0) * wf(x0))
+                        else:
+                            grads.append(anti(b_, sl) - anti(a_, sl))
+                    val = pv[0] * (anti(b_, 0) - anti(a_, 0)) + pv[1] * (anti(b_, 1) - anti(a_, 1))
+                    sub = dict(case, w=w, a=av, b=bv, obs_slots=list(obs_slots), assign=assign)
+                    with_limits = bool(set(obs_slots) & {'a', 'b'})
+                    try:
+                        res = pe.integrate.quad(lambda q, x: q[0] + q[1] * x, p, lim['a'], lim['b'], weight=wname, wvar=w)
+                        bad = ref.close(ref.r_propagate(val, grads, ins), compare.to_ref(res[0]), 1e-8)
+                    except Exception as ex:
+                        bad = 'raised %s: %s' % (type(ex).__name__, ex)
+                    if bad:
+                        acc.fail('quad-weight:%s' % ('obs-limit' if with_limits else wname), sub, 'quad(p0+p1 x, weight=%s, wvar=%g) on [%g,%g], observables %s (%s): %s' % (wname, w, av, bv, list(obs_slots), assign, bad))
+                    else:
+                        acc.ok(('quadw', wname, w, av, obs_slots, assign), True, 'quad-weight')
+    acc.sample(dict(case, integrand='(p0 + p1 x) * %s(w x)' % wname))
 
 
 def _newton(f, df, x):
